@@ -333,9 +333,18 @@ class C10(Property):
             accepted = False
         except Exception as ex:
             accepted = 'err:' + type(ex).__name__
+        # the same pair offered in the other order: the newer definitions first, then the older ones
+        try:
+            o_rev = build_ontology(case['ots2'], case['et2'])
+            o_rev.update(build_ontology(case['ots'], case['et']))
+            accepted_rev = True
+        except (EDXMLOntologyValidationError, EDXMLValidationError):
+            accepted_rev = False
+        except Exception as ex:
+            accepted_rev = 'err:' + type(ex).__name__
         rows = []
         v_old = EventValidator(o_old)
-        ref = o_up if accepted is True else o_new
+        ref = o_up if accepted is True else (o_rev if accepted_rev is True else o_new)
         v_new = EventValidator(ref)
         t_old, t_new = o_old.get_event_type('t'), ref.get_event_type('t')
         for ev in case['events']:
@@ -350,7 +359,7 @@ class C10(Property):
             if a is True and b is True:
                 m = self.merge_same(t_old, t_new, ev)
             rows.append([a, b, h, m])
-        return {'accepted': accepted, 'events': rows}
+        return {'accepted': accepted, 'accepted_rev': accepted_rev, 'events': rows}
 
     @staticmethod
     def merge_same(t_old, t_new, ev):
@@ -389,7 +398,7 @@ class C10(Property):
         rows = []
         for row in r['events']:
             rows.append([row['validOld'], row['validNew'], row['hashSame'], 'undecided'])
-        return {'accepted': accepted, 'events': rows}
+        return {'accepted': accepted, 'accepted_rev': accepted, 'events': rows}
 
     def fill_undecided(self, case, obs, pred):
         if obs['accepted'] == 'unbuildable':
@@ -401,6 +410,11 @@ class C10(Property):
 
     # -- oracle
     def oracle(self, case, obs):
+        if obs['accepted'] in (True, False) and obs.get('accepted_rev', obs['accepted']) != obs['accepted']:
+            return ('edits %s: updating the old ontology with the new one is %s, updating the new one with the old one is %s '
+                    '(whether two ontologies are compatible does not depend on which of them arrives first)' % (
+                        case['edits'], 'accepted' if obs['accepted'] else 'refused',
+                        'accepted' if obs['accepted_rev'] is True else 'refused' if obs['accepted_rev'] is False else obs['accepted_rev']))
         if obs['accepted'] is not True:
             if isinstance(obs['accepted'], str) and obs['accepted'].startswith('err:'):
                 return 'Ontology.update raised %s' % obs['accepted'][4:]
